@@ -773,6 +773,21 @@ pub fn eval(t: &SExpr, sc: &Scopes, env: &ValEnv, locals: &mut Vec<(String, SVal
     }
 }
 
+/// Evaluates every defined function of the scopes in definition order and adds the values to `env`
+/// (so that later look-ups do not re-evaluate definition chains).
+pub fn eval_definitions(sc: &Scopes, env: &mut ValEnv) -> Result<(), String> {
+    for name in sc.order.iter() {
+        if env.contains_key(name) {
+            continue;
+        }
+        if let Some(Binding { def: Some(d), .. }) = sc.get(name) {
+            let v = eval(d, sc, env, &mut vec![]).map_err(|e| format!("definition of {}: {}", name, e))?;
+            env.insert(name.clone(), v);
+        }
+    }
+    Ok(())
+}
+
 pub fn sval_eq(a: &SVal, b: &SVal) -> bool {
     match (a, b) {
         (SVal::B(_, x), SVal::B(_, y)) => x == y,
